@@ -25,6 +25,8 @@ type c03Case struct {
 	// WrapLog: crash points before every PHYSICAL write to the log (the log file is wrapped,
 	// hook wal.fwrite) instead of before the logical write in wal.flush (hook wal.write)
 	WrapLog bool `json:"wrap_log,omitempty"`
+	// Age > 0: the database starts with the row-id and LSN counters of a database long in use (props.Ages)
+	Age int `json:"age,omitempty"`
 	// RestartBefore[i] = "shutdown" | "crash": the process is restarted (start-up
 	// recovery included) right before statement i
 	RestartBefore map[int]string `json:"restart_before,omitempty"`
@@ -63,7 +65,7 @@ func c03Gen(rt *rapid.T) c03Case {
 		cfg.MaxTables = len(pre)
 		cfg.MinStmts = 6
 	}
-	c := c03Case{Stmts: append(pre, gen.History(rt, cfg, db)...)}
+	c := c03Case{Age: DrawAge(rt), Stmts: append(pre, gen.History(rt, cfg, db)...)}
 	if rapid.IntRange(0, 5).Draw(rt, "restartprofile") == 0 {
 		// a burst of CREATE TABLEs (they consume log sequence numbers without logging),
 		// a restart, then a root move and further statements - the victims' images then
@@ -144,6 +146,9 @@ func c03Run(c c03Case, st *vlib.Stats) string {
 	}
 	if err != nil {
 		return "setup failed: " + err.Error()
+	}
+	if err := AgeDatabase(eng, c.Age); err != nil {
+		return "advancing the counters failed: " + err.Error()
 	}
 	if c.WrapLog {
 		eng.RS().VerifWrapLog()
